@@ -428,7 +428,7 @@ def case_tree_model(n, kind, what, hetero=True):
     if what == "call":
         def mk(v):
             return ratio_tree(n, v["ratios"], v["root_height"], hetero) if kind == "ratio" else shift_tree(n, v["shifts"], hetero)
-    return Case(f"{cls}.{what}", params, build, {"taxa-1": n - 1, "taxa": n, "branches": 2 * n - 2}, mk=mk)
+    return Case(f"{cls}[n={n}].{what}", params, build, {"taxa-1": n - 1, "taxa": n, "branches": 2 * n - 2}, mk=mk)
 
 
 def case_height_transform(n, kind, what, hetero=True):
@@ -454,7 +454,7 @@ def case_height_transform(n, kind, what, hetero=True):
         return tr.log_abs_det_jacobian(v["x"], tr(v["x"]))
 
     cls = "GeneralNodeHeightTransform" if kind == "general" else "DifferenceNodeHeightTransform"
-    return Case(f"{cls}.{what}", params, build, {"taxa-1": n - 1})
+    return Case(f"{cls}[n={n}].{what}", params, build, {"taxa-1": n - 1})
 
 
 def case_transform(name):
@@ -600,7 +600,7 @@ def case_coalescent(which, n, hetero, tree_kind="time", grid_n=3, temperature=No
            "skygrid": "PiecewiseConstantCoalescentGridModel" + ("[soft]" if temperature else ""),
            "linear": "PiecewiseLinearCoalescentGridModel",
            "piecewise-exponential": "PiecewiseExponentialCoalescentGridModel"}[which]
-    return Case(f"{cls}[{tree_kind}{',hetero' if hetero else ''}]", params, None,
+    return Case(f"{cls}[{tree_kind}{',hetero' if hetero else ''},n={n}]", params, None,
                 {"taxa-1": n - 1, "taxa": n, "nodes": 2 * n - 1, "grid": grid_n, "grid+1": grid_n + 1}, mk=build)
 
 
@@ -875,3 +875,161 @@ def mixed_batch_components():
             seen.add(c.name)
             uniq.append(c)
     return uniq
+
+
+# ----------------------------------------------------------------------------- models built through from_json
+def pj(id_, t):
+    """a Parameter literal with the tensor inline (the way a configuration file carries batched values)"""
+    return {"id": id_, "type": "Parameter", "tensor": t.tolist(), "dtype": str(t.dtype)}
+
+
+def tree_json(n, heights, hetero, id_="tree"):
+    return {"id": id_, "type": "TimeTreeModel", "newick": NEWICK[n], "internal_heights": pj("heights", heights),
+            "taxa": taxa_json(n, hetero)}
+
+
+def json_cases():
+    """the same classes reached through `process_object` on a complete JSON document, parameters inline, optional
+    keys present or absent, sub-objects inline or referenced by id. `twin` names the constructor-built case with the
+    same parameters: both must return bit-identical tensors (batched or not)."""
+    import torchtree.distributions.ctmc_scale  # noqa: F401  (importing registers the short type names)
+    import torchtree.distributions.gmrf  # noqa: F401
+    import torchtree.distributions.joint_distribution  # noqa: F401
+    import torchtree.distributions.multivariate_normal  # noqa: F401
+    import torchtree.evolution.bdsk  # noqa: F401
+    import torchtree.evolution.coalescent  # noqa: F401
+    import torchtree.evolution.tree_likelihood  # noqa: F401
+
+    n, hetero = 4, True
+    out = []
+
+    def add(name, twin, params, spec):
+        def build(v):
+            return process_object(spec(v), {})()
+
+        c = Case("json:" + name, params, build, {"taxa-1": n - 1})
+        c.twin = twin
+        out.append(c)
+
+    hp = heights_param(n, hetero)
+    top = max_tip(n, hetero) + 0.9 * (n - 1)
+    add("ConstantCoalescentModel", case_coalescent("constant", n, hetero, "time"), {"heights": hp, "theta": pos(1)},
+        lambda v: {"id": "c", "type": "ConstantCoalescentModel", "theta": pj("theta", v["theta"]),
+                   "tree_model": tree_json(n, v["heights"], hetero)})
+    add("ExponentialCoalescentModel", None,
+        {"heights": hp, "theta": pos(1), "growth": P((1,), lambda g: u(0.1, 1.0)(g, (1,)))},
+        lambda v: {"id": "c", "type": "ExponentialCoalescentModel", "theta": pj("theta", v["theta"]),
+                   "growth": pj("growth", v["growth"]), "tree_model": tree_json(n, v["heights"], hetero)})
+    add("PiecewiseConstantCoalescentModel", None, {"heights": hp, "theta": pos(n - 1)},
+        lambda v: {"id": "c", "type": "PiecewiseConstantCoalescentModel", "theta": pj("theta", v["theta"]),
+                   "tree_model": tree_json(n, v["heights"], hetero)})
+    grid = torch.linspace(0.0, top, n + 1, dtype=torch.float64)[1:]
+    add("PiecewiseConstantCoalescentGridModel[grid-list]", None, {"heights": hp, "theta": pos(n + 1)},
+        lambda v: {"id": "c", "type": "PiecewiseConstantCoalescentGridModel", "theta": pj("theta", v["theta"]),
+                   "grid": grid.tolist(), "tree_model": tree_json(n, v["heights"], hetero)})
+    add("PiecewiseConstantCoalescentGridModel[cutoff]", None, {"heights": hp, "theta": pos(n + 1)},
+        lambda v: {"id": "c", "type": "PiecewiseConstantCoalescentGridModel", "theta": pj("theta", v["theta"]),
+                   "cutoff": top, "tree_model": tree_json(n, v["heights"], hetero)})
+    add("PiecewiseLinearCoalescentGridModel[grid-parameter]", None, {"heights": hp, "theta": pos(n + 1)},
+        lambda v: {"id": "c", "type": "PiecewiseLinearCoalescentGridModel", "theta": pj("theta", v["theta"]),
+                   "grid": pj("grid", grid), "tree_model": tree_json(n, v["heights"], hetero)})
+    add("GMRF", None, {"field": real(4), "precision": pos(1)},
+        lambda v: {"id": "g", "type": "GMRF", "x": pj("field", v["field"]), "precision": pj("precision", v["precision"])})
+    add("GMRF[tree,rescale=false]", None, {"field": real(n - 1), "precision": pos(1), "heights": heights_param(n, False)},
+        lambda v: {"id": "g", "type": "GMRF", "x": pj("field", v["field"]), "precision": pj("precision", v["precision"]),
+                   "tree_model": tree_json(n, v["heights"], False), "rescale": False})
+    add("CTMCScale", case_ctmc_scale(n, "time"), {"rate": small(1), "heights": hp},
+        lambda v: {"id": "ctmc", "type": "CTMCScale", "x": pj("rate", v["rate"]),
+                   "tree_model": tree_json(n, v["heights"], hetero)})
+    add("Distribution[Normal]", case_distribution("Normal", 3), {"x": real(3), "loc": real(1), "scale": pos(1)},
+        lambda v: {"id": "d", "type": "Distribution", "distribution": "torch.distributions.Normal", "x": pj("x", v["x"]),
+                   "parameters": {"loc": pj("loc", v["loc"]), "scale": pj("scale", v["scale"])}})
+    add("Distribution[Gamma,numbers]", None, {"x": pos(3)},
+        lambda v: {"id": "d", "type": "Distribution", "distribution": "torch.distributions.Gamma", "x": pj("x", v["x"]),
+                   "parameters": {"concentration": 2.0, "rate": [0.5]}})
+    add("MultivariateNormal", None, {"x": real(2), "loc": real(2)},
+        lambda v: {"id": "m", "type": "MultivariateNormal", "x": pj("x", v["x"]),
+                   "parameters": {"loc": pj("loc", v["loc"]),
+                                  "covariance_matrix": pj("cov", torch.tensor([[1.5, 0.25], [0.25, 0.75]], dtype=torch.float64))}})
+    add("JointDistributionModel[shared-x]", None, {"x": pos(3), "loc": real(1)},
+        lambda v: {"id": "j", "type": "JointDistributionModel", "distributions": [
+            {"id": "d1", "type": "Distribution", "distribution": "torch.distributions.LogNormal", "x": pj("x", v["x"]),
+             "parameters": {"loc": pj("loc", v["loc"]), "scale": 0.75}},
+            {"id": "d2", "type": "Distribution", "distribution": "torch.distributions.Gamma", "x": "x",
+             "parameters": {"concentration": 2.0, "rate": 1.5}}]})
+    add("JointDistributionModel[coalescent+prior,tree-by-reference]", None, {"heights": hp, "theta": pos(1), "rate": small(1)},
+        lambda v: {"id": "j", "type": "torchtree.distributions.joint_distribution.JointDistributionModel", "distributions": [
+            {"id": "c", "type": "torchtree.evolution.coalescent.ConstantCoalescentModel", "theta": pj("theta", v["theta"]),
+             "tree_model": tree_json(n, v["heights"], hetero)},
+            {"id": "ctmc", "type": "CTMCScale", "x": pj("rate", v["rate"]), "tree_model": "tree"},
+            {"id": "pr", "type": "Distribution", "distribution": "torch.distributions.Exponential", "x": "theta",
+             "parameters": {"rate": 0.5}}]})
+    add("BDSKModel[times-list,rho]", None,
+        {"heights": hp, "R": pos(2), "delta": pos(2), "s": unit(2), "rho": unit(1),
+         "origin": P((1,), lambda g: top + 1.0 + u(0.5, 2.0)(g, (1,)))},
+        lambda v: {"id": "b", "type": "BDSKModel", "tree_model": tree_json(n, v["heights"], hetero), "R": pj("R", v["R"]),
+                   "delta": pj("delta", v["delta"]), "s": pj("s", v["s"]), "rho": pj("rho", v["rho"]),
+                   "origin": pj("origin", v["origin"]), "times": [0.0, 0.5 * top], "survival": True})
+    add("WeibullSiteModel.rates[invariant,mu]", None, {"shape": pos(1), "inv": unit(1), "mu": pos(1)},
+        lambda v: {"id": "sm", "type": "WeibullSiteModel", "categories": 3, "shape": pj("shape", v["shape"]),
+                   "invariant": pj("inv", v["inv"]), "mu": pj("mu", v["mu"])})
+    out[-1].build = lambda v, spec=None: process_object(
+        {"id": "sm", "type": "WeibullSiteModel", "categories": 3, "shape": pj("shape", v["shape"]),
+         "invariant": pj("inv", v["inv"]), "mu": pj("mu", v["mu"])}, {}).rates()
+
+    def like_spec(v):
+        return {
+            "id": "like", "type": "TreeLikelihoodModel",
+            "tree_model": tree_json(n, v["heights"], hetero),
+            "site_model": {"id": "sm", "type": "WeibullSiteModel", "categories": 3, "shape": pj("shape", v["shape"])},
+            "substitution_model": {"id": "hky", "type": "HKY", "kappa": pj("kappa", v["kappa"]),
+                                   "frequencies": pj("pi", v["pi"])},
+            "branch_model": {"id": "clock", "type": "StrictClockModel", "tree_model": "tree", "rate": pj("rate", v["clock"])},
+            "site_pattern": {"id": "sites", "type": "SitePattern", "alignment": {
+                "id": "alignment", "type": "Alignment", "datatype": "nucleotide", "taxa": "taxa",
+                "sequences": [{"taxon": NAMES[i], "sequence": SEQS[NAMES[i]]} for i in range(n)]}},
+        }
+
+    add("TreeLikelihoodModel", case_tree_likelihood(4, "HKY", "Weibull", "time", "strict", cats=3),
+        {"heights": hp, "shape": pos(1), "kappa": pos(1), "pi": simplex(4), "clock": small(1)}, like_spec)
+    out[-1].slow = True
+    return out
+
+
+NEWICK[2] = "(A,B);"
+
+
+def minimum_size_cases():
+    """smallest instances: two taxa (one internal node), one rate category, one grid interval, one-element field"""
+    cs = [case_coalescent("constant", 2, True, "time"), case_coalescent("skyride", 2, True, "time"),
+          case_coalescent("skygrid", 2, False, "time", grid_n=1), case_coalescent("exponential", 2, False, "time"),
+          case_site("Weibull", "rates", cats=1), case_site("Weibull", "rates", cats=1, with_inv=True),
+          case_gmrf("plain", N=2), case_ctmc_scale(2, "time"), case_tree_model(2, "time", "branch_lengths"),
+          case_tree_model(2, "shift", "node_heights"), case_bdsk(2, 1, False),
+          case_tree_likelihood(2, "HKY", "Weibull", "time", "strict", cats=1)]
+    for c in cs:
+        c.name = c.name + "[min]"
+    return cs
+
+
+def soft_skygrid_distribution_case(n=4, grid_n=3):
+    """the torch-Distribution level class `SoftPiecewiseConstantCoalescentGrid(theta, grid, temperature=None)` called
+    directly (the model class never builds it with temperature None). The tip (sampling) times are DATA: in every
+    route the library offers they are shared by all samples (TimeTreeModel expands one `sampling_times` vector), so
+    the batched argument carries the same tip times in every row; the class reads them from row 0
+    (`node_heights.flatten()[:taxa_count]`)."""
+    from torchtree.evolution.coalescent import SoftPiecewiseConstantCoalescentGrid
+
+    hetero = True
+    tips = torch.tensor([dates_for(n, hetero)[NAMES[i]] for i in range(n)], dtype=torch.float64)
+    top = max_tip(n, hetero) + 0.9 * (n - 1)
+    grid = torch.linspace(0.0, top, grid_n + 1, dtype=torch.float64)[1:]
+    params = {"heights": heights_param(n, hetero), "theta": pos(grid_n + 1)}
+
+    def build(v):
+        h = v["heights"]
+        nh = torch.cat((tips.expand(h.shape[:-1] + (-1,)), h), -1)
+        return SoftPiecewiseConstantCoalescentGrid(v["theta"], grid, None).log_prob(nh)
+
+    return Case("SoftPiecewiseConstantCoalescentGrid[temperature=None].log_prob", params, build,
+                {"taxa-1": n - 1, "grid+1": grid_n + 1})
